@@ -11,6 +11,7 @@ import (
 	"strings"
 	"testing"
 
+	"mellium.im/xmlstream"
 	"mellium.im/xmpp/internal/xmpptest"
 	"mellium.im/xmpp/stanza"
 )
@@ -44,4 +45,31 @@ func TestGvcAdapterEncodeElementStart(t *testing.T) {
 		return
 	}
 	fmt.Println("NOT-REPRODUCED EncodeElement uses the supplied start element")
+}
+
+type gvcWriterTo struct{}
+
+func (gvcWriterTo) WriteXML(w xmlstream.TokenWriter) (int, error) {
+	start := xml.StartElement{Name: xml.Name{Local: "message"}}
+	if err := w.EncodeToken(start); err != nil {
+		return 0, err
+	}
+	return 2, w.EncodeToken(start.End())
+}
+
+// Encode of a value that writes itself (xmlstream.WriterTo): after a nil
+// return the element must be on the wire (flushed).
+func TestGvcAdapterEncodeWriterToFlushed(t *testing.T) {
+	out := &strings.Builder{}
+	s := xmpptest.NewClientSession(0, struct {
+		io.Reader
+		io.Writer
+	}{strings.NewReader(""), out})
+	err := s.Encode(context.Background(), gvcWriterTo{})
+	if err == nil && !strings.Contains(out.String(), "<message") {
+		fmt.Printf("REPRODUCED Encode: nil error but the element written by a WriterTo value is not on the wire (not flushed): wire=%q\n", out.String())
+		t.Fail()
+		return
+	}
+	fmt.Printf("NOT-REPRODUCED Encode WriterTo: err=%v wire=%q\n", err, out.String())
 }
